@@ -395,4 +395,9 @@ condition after every wake-up in both lock implementations: `Answers` shares one
 own condition holds" is this fact. -/
 theorem C08_wait_while_rechecks : waitWhileRechecksStd = true ∧ waitWhileRechecksParkingLot = true := by decide
 
+/-- Value-level facts of the `hot_reload` handshake that no effect skeleton shows: a caller waits for exactly its own token, the
+reloader publishes only into an empty slot, tokens are distinct, `notify_all` wakes every sleeper; and a request takes in the events
+that were sent before it (the loop is bounded by the length of the EVENT channel). -/
+theorem C08_handshake_values : AmVerif.Gen.answersHandshakeExact = true ∧ AmVerif.Gen.requestTakesPendingEvents = true := by decide
+
 end AmVerif.Props.C08
